@@ -59,7 +59,8 @@ type loader struct {
 
 	// annotationEndedOnThisLine a multi-line annotation, begun on an earlier line,
 	// ended on the current line and no node has started on this line since: a
-	// further annotation here still belongs to the node of that annotation.
+	// further annotation here still belongs to the nodes of that annotation (to
+	// none, if that annotation stands on lines without EXAMPLE).
 	annotationEndedOnThisLine bool
 }
 
@@ -150,7 +151,8 @@ func (l *loader) doLoad() {
 // here can refer to.
 func (l *loader) nodesOfAnnotatedLine() uint {
 	if l.nodesPerCurrentLineCount == 0 && l.annotationEndedOnThisLine {
-		return 1
+		// l.rule has loaded the annotation that ended here, or one behind it.
+		return l.rule.nodesPerCurrentLineCount
 	}
 	return l.nodesPerCurrentLineCount
 }
